@@ -193,8 +193,9 @@ inline std::string show_lists(const tapkee::tapkee_internal::Neighbors& nb)
 struct CaptureLogger : tapkee::LoggerImplementation
 {
     std::vector<std::string> warnings;
-    void message_info(const std::string&) override
+    void message_info(const std::string& m) override
     {
+        warnings.push_back(m);
     }
     void message_warning(const std::string& m) override
     {
